@@ -36,6 +36,14 @@
 // kind of reader a caller may give to SetInput, and through the response body
 // of simpleshell.Go, to a cat-like child that must see exactly those bytes and
 // the end of its input exactly when the reader ends.
+//
+// A seventh engine (cli.go) builds the command-line tool
+// lib/simpleshell/cmd/simpleshell, runs it as a child process against the
+// harness HTTPS server under every documented source of its three settings
+// (flags, SIMPLESHELL_* variables, -ldflags -X values) with servers that lag up
+// to 6 s behind the command's end, and requires the same of the request body
+// plus a report by the tool (exit status or anything on its own descriptors)
+// of an unsuccessful end of the command.
 package c14
 
 import (
@@ -1211,7 +1219,7 @@ func witness(s *spec, res *result, v verdict, dir string) map[string]any {
 }
 
 func Run(r *mon.Run) {
-	r.Rule = "one case = one generated child program (perl syswrite plan, or sh+dd) run through simpleshell.NewCmdShell with one scripted consumer of Output() and one stdin arrangement; stdout carries a–z and stderr A–Z, byte at offset o = base+(o*7+o/251)%26, so the merged stream is split and each side compared with what the child reports having written; cat-mode cases (every 5th) send PRNG bytes through SetInput and compare the child's stdin log and Output() with them; every 5th pattern case and every 5th cat case ends by a signal to itself (KILL TERM SEGV ABRT HUP USR1 in turn) instead of exit, and Go must then return an error. Engine e2e: the same pattern children run through simpleshell.Go against a harness HTTPS server (HTTP/1.1 and HTTP/2 alternate) whose handler reads the request body on a script (keeps up for a while, then lags, reads nothing from the child's exit until some time after a few lines of late input, then reads the rest), feeds early input the child reads and logs, and ends the response after the request body has ended; the bytes the server read up to the end of the request body, split by alphabet, must be what the child reports having written, the body must end cleanly, and simpleshell.Go must return an error for a non-zero exit or a death by signal. Engine ctx (how the command was built and how it ends): the *exec.Cmd given to NewCmdShell is made by exec.Command, by exec.CommandContext with the default Cancel (Kill), with a Cancel that sends SIGTERM (the child's handler reports and exits 98, or the child ignores it), or with Cancel set back to nil, each with or without a WaitDelay of the caller's own (200 ms to 3 s); stall after the cancellation (0, 0.3, 1.2, 2.5, 6.5 s, and 21.5 s after a command that ended by itself with 40-98 KB pending on one descriptor only; thorough also 1.6, 3.5, 5.5, 11 and 32 s), build and cancellation point go by case index, so every (build, stall) pair occurs at every seed. The consumer first reads an exact number of bytes (0 to 400 000), only then the child goes on (gate file) and writes 0 to 98 304 more bytes per descriptor, reporting after every write; the command's context is cancelled when the child has been seen at the scripted point - blocked in a further 256 KiB write or pausing before its last write (mid-write), lingering after its last write, already exited, or never - and the consumer reads nothing until the stall is over, then drains on a fast, chunked or slow schedule. The input is an io.Pipe left open (empty or with unread data), an *os.File pipe left open, nil, or a reader at EOF. Whatever ended the child (SIGKILL by the context, its SIGTERM handler, the Kill after the caller's WaitDelay, or its own exit), every byte of its last report must have arrived when Output() reports io.EOF; an Output() that ends with an error after a cancellation is counted, not judged, when the caller set a WaitDelay (os/exec then closes the pipes when it expires) and is a violation when the caller set none; without a cancellation it must end with io.EOF; an unsuccessful wait status with a nil return of Go is a violation. Engine leave (the consumer leaves): the consumer of Output() reads an exact number of bytes (0 to 400 000, fast / odd chunks / slow) and then closes the reader - Close at once, Close after a pause of up to 40 ms without reading, Close from a second goroutine while a Read is pending, or CloseWithError when the reader offers it - while the child is running: before its further writes (the child waits at a gate file the harness creates after Close has returned; 1 byte to half a pipe more per descriptor), during paced small writes, while it is blocked in one write of 3 to 6 pipe buffers, after its last write, or (cat child) before the rest of the input arrives, which the child then copies to stdout; 0 to 16 KiB are written and unread at that moment; end (exit 0, non-zero, a signal to itself - the six in turn -, context cancelled with SIGKILL, context cancelled with SIGTERM which the child's handler turns into exit 98) and moment go by case index so that every pair occurs in any 64 consecutive cases (a child blocked in a write is always ended by its context, the cat child never); the input is nil, an io.Pipe left open (empty or with unread data), an *os.File pipe left open, a reader at EOF, scripted data the child reads to its end before it ends, or the cat child's data in two parts; verdicts: the wait status exec.Cmd recorded is unsuccessful and Go returned nil = violation (same keys as in the other engines), the bytes delivered before the consumer left are not a correct per-descriptor prefix (cat: a prefix of the input) = violation; with a successful exit either return value is accepted and counted (go_error_on_clean_exit). Engine leave-e2e: the same through simpleshell.Go against the harness HTTPS server (HTTP/1.1 and HTTP/2 alternate): the handler reads an exact number of bytes of the request body (0 to 400 000) and goes away while the child waits at the gate - closes the TLS connection, resets the TCP connection, panics with http.ErrAbortHandler, or returns; the child writes a first part, the harness waits (2 s at most) until net/http has closed the reader it got from Output() (seen through a Shell that embeds the CmdShell and records Close), the child writes a second part and ends (exit 0, non-zero, signal to itself, context cancelled); an unsuccessful wait status with a nil return of simpleshell.Go is a violation. Engine input (fidelity of the input side under chunking; runs beside engine ctx): a cat-like child (a perl program that logs every byte of its stdin with syswrite and echoes it, /bin/cat, or a perl byte counter with a SHA-256) run through NewCmdShell gets its input through every kind of reader a caller may give to SetInput - a reader whose every Read returns one scripted chunk, io.Pipe and net.Pipe (one Write per chunk), a unix stream socket and an *os.File pipe (one write per chunk, each handed over only when the child has logged everything before it), io.MultiReader over one bytes.Reader per chunk, bytes.Reader, bufio.Reader, a regular file - and, through simpleshell.Go, through the body of an HTTPS response (HTTP/1.1 and HTTP/2: one Write+Flush per chunk, handed over when the child has logged everything before it; the child reads exactly the data and the server appends 4096 bytes of padding, so that lost bytes show as wrong bytes instead of a child that waits). The content of a case is a list of chunks; five of them begin with a byte sequence picked by case index from a list of 61 (UTF-8/16/32/7/GB18030 byte order marks and parts of one, NUL, ^D, ^Z, ^C, ^\\, ^U, XON/XOFF, DEL, BS, CR, LF, CRLF and friends, ESC and escape sequences incl. bracketed paste, C1 CSI, 0xFF, telnet IAC sequences, '~.' escapes, '+++', invalid and odd UTF-8, a chunked-encoding terminator, an HTTP status line, 'EOF', 'exit'), end with another one, consist of nothing else, or carry it twice; between them one sequence split across two chunks (CR|LF, the BOM 1|2 and 2|1, ESC sequences, IAC, '~'|'.', a euro sign, FF|FE, NUL|NUL), a lone NUL chunk, lone CR then lone LF chunks, zero-length reads (scripted reader, io.Pipe, net.Pipe) and filler chunks of up to 32 KiB of PRNG bytes or text; kind of reader and sequences go by index so that at every seed every sequence leads a read of every kind of reader (for bytes.Reader, bufio.Reader and the regular file: leads the stream). Verdicts: the child's stdin log (or what /bin/cat sent back on Output(), or the counter's n and SHA-256) is not exactly the bytes sent, in order = violation (stdin-corrupt:input, echo-differs-from-input:input, stdin-digest-differs:input); the child saw the end of its input with bytes missing = stdin-truncated:input; the reader is kept open 10 or 40 ms after the child has logged the last byte and the child must not have reported end of input by then (stdin-eof-before-end-of-input:input); the child (which ends at the end of its input) must end and Output() report io.EOF within 30 s, re-run alone with 60 s, else output-stream-does-not-end:input; Output() must equal what the child echoed and end with io.EOF. distinct_nontrivial = distinct (mode, flavor, sizes, write sizes, interleaving, exit status/mode, stdin arrangement, consumer schedule) signatures among cases that move at least one byte"
+	r.Rule = "one case = one generated child program (perl syswrite plan, or sh+dd) run through simpleshell.NewCmdShell with one scripted consumer of Output() and one stdin arrangement; stdout carries a–z and stderr A–Z, byte at offset o = base+(o*7+o/251)%26, so the merged stream is split and each side compared with what the child reports having written; cat-mode cases (every 5th) send PRNG bytes through SetInput and compare the child's stdin log and Output() with them; every 5th pattern case and every 5th cat case ends by a signal to itself (KILL TERM SEGV ABRT HUP USR1 in turn) instead of exit, and Go must then return an error. Engine e2e: the same pattern children run through simpleshell.Go against a harness HTTPS server (HTTP/1.1 and HTTP/2 alternate) whose handler reads the request body on a script (keeps up for a while, then lags, reads nothing from the child's exit until some time after a few lines of late input, then reads the rest), feeds early input the child reads and logs, and ends the response after the request body has ended; the bytes the server read up to the end of the request body, split by alphabet, must be what the child reports having written, the body must end cleanly, and simpleshell.Go must return an error for a non-zero exit or a death by signal. Engine ctx (how the command was built and how it ends): the *exec.Cmd given to NewCmdShell is made by exec.Command, by exec.CommandContext with the default Cancel (Kill), with a Cancel that sends SIGTERM (the child's handler reports and exits 98, or the child ignores it), or with Cancel set back to nil, each with or without a WaitDelay of the caller's own (200 ms to 3 s); stall after the cancellation (0, 0.3, 1.2, 2.5, 6.5 s, and 21.5 s after a command that ended by itself with 40-98 KB pending on one descriptor only; thorough also 1.6, 3.5, 5.5, 11 and 32 s), build and cancellation point go by case index, so every (build, stall) pair occurs at every seed. The consumer first reads an exact number of bytes (0 to 400 000), only then the child goes on (gate file) and writes 0 to 98 304 more bytes per descriptor, reporting after every write; the command's context is cancelled when the child has been seen at the scripted point - blocked in a further 256 KiB write or pausing before its last write (mid-write), lingering after its last write, already exited, or never - and the consumer reads nothing until the stall is over, then drains on a fast, chunked or slow schedule. The input is an io.Pipe left open (empty or with unread data), an *os.File pipe left open, nil, or a reader at EOF. Whatever ended the child (SIGKILL by the context, its SIGTERM handler, the Kill after the caller's WaitDelay, or its own exit), every byte of its last report must have arrived when Output() reports io.EOF; an Output() that ends with an error after a cancellation is counted, not judged, when the caller set a WaitDelay (os/exec then closes the pipes when it expires) and is a violation when the caller set none; without a cancellation it must end with io.EOF; an unsuccessful wait status with a nil return of Go is a violation. Engine leave (the consumer leaves): the consumer of Output() reads an exact number of bytes (0 to 400 000, fast / odd chunks / slow) and then closes the reader - Close at once, Close after a pause of up to 40 ms without reading, Close from a second goroutine while a Read is pending, or CloseWithError when the reader offers it - while the child is running: before its further writes (the child waits at a gate file the harness creates after Close has returned; 1 byte to half a pipe more per descriptor), during paced small writes, while it is blocked in one write of 3 to 6 pipe buffers, after its last write, or (cat child) before the rest of the input arrives, which the child then copies to stdout; 0 to 16 KiB are written and unread at that moment; end (exit 0, non-zero, a signal to itself - the six in turn -, context cancelled with SIGKILL, context cancelled with SIGTERM which the child's handler turns into exit 98) and moment go by case index so that every pair occurs in any 64 consecutive cases (a child blocked in a write is always ended by its context, the cat child never); the input is nil, an io.Pipe left open (empty or with unread data), an *os.File pipe left open, a reader at EOF, scripted data the child reads to its end before it ends, or the cat child's data in two parts; verdicts: the wait status exec.Cmd recorded is unsuccessful and Go returned nil = violation (same keys as in the other engines), the bytes delivered before the consumer left are not a correct per-descriptor prefix (cat: a prefix of the input) = violation; with a successful exit either return value is accepted and counted (go_error_on_clean_exit). Engine leave-e2e: the same through simpleshell.Go against the harness HTTPS server (HTTP/1.1 and HTTP/2 alternate): the handler reads an exact number of bytes of the request body (0 to 400 000) and goes away while the child waits at the gate - closes the TLS connection, resets the TCP connection, panics with http.ErrAbortHandler, or returns; the child writes a first part, the harness waits (2 s at most) until net/http has closed the reader it got from Output() (seen through a Shell that embeds the CmdShell and records Close), the child writes a second part and ends (exit 0, non-zero, signal to itself, context cancelled); an unsuccessful wait status with a nil return of simpleshell.Go is a violation. Engine input (fidelity of the input side under chunking; runs beside engine ctx): a cat-like child (a perl program that logs every byte of its stdin with syswrite and echoes it, /bin/cat, or a perl byte counter with a SHA-256) run through NewCmdShell gets its input through every kind of reader a caller may give to SetInput - a reader whose every Read returns one scripted chunk, io.Pipe and net.Pipe (one Write per chunk), a unix stream socket and an *os.File pipe (one write per chunk, each handed over only when the child has logged everything before it), io.MultiReader over one bytes.Reader per chunk, bytes.Reader, bufio.Reader, a regular file - and, through simpleshell.Go, through the body of an HTTPS response (HTTP/1.1 and HTTP/2: one Write+Flush per chunk, handed over when the child has logged everything before it; the child reads exactly the data and the server appends 4096 bytes of padding, so that lost bytes show as wrong bytes instead of a child that waits). The content of a case is a list of chunks; five of them begin with a byte sequence picked by case index from a list of 61 (UTF-8/16/32/7/GB18030 byte order marks and parts of one, NUL, ^D, ^Z, ^C, ^\\, ^U, XON/XOFF, DEL, BS, CR, LF, CRLF and friends, ESC and escape sequences incl. bracketed paste, C1 CSI, 0xFF, telnet IAC sequences, '~.' escapes, '+++', invalid and odd UTF-8, a chunked-encoding terminator, an HTTP status line, 'EOF', 'exit'), end with another one, consist of nothing else, or carry it twice; between them one sequence split across two chunks (CR|LF, the BOM 1|2 and 2|1, ESC sequences, IAC, '~'|'.', a euro sign, FF|FE, NUL|NUL), a lone NUL chunk, lone CR then lone LF chunks, zero-length reads (scripted reader, io.Pipe, net.Pipe) and filler chunks of up to 32 KiB of PRNG bytes or text; kind of reader and sequences go by index so that at every seed every sequence leads a read of every kind of reader (for bytes.Reader, bufio.Reader and the regular file: leads the stream). Verdicts: the child's stdin log (or what /bin/cat sent back on Output(), or the counter's n and SHA-256) is not exactly the bytes sent, in order = violation (stdin-corrupt:input, echo-differs-from-input:input, stdin-digest-differs:input); the child saw the end of its input with bytes missing = stdin-truncated:input; the reader is kept open 10 or 40 ms after the child has logged the last byte and the child must not have reported end of input by then (stdin-eof-before-end-of-input:input); the child (which ends at the end of its input) must end and Output() report io.EOF within 30 s, re-run alone with 60 s, else output-stream-does-not-end:input; Output() must equal what the child echoed and end with io.EOF. Engine cli (the command-line tool, configuration matrix; runs beside all the other engines): lib/simpleshell/cmd/simpleshell is built (go build -race, as the harness) and run as a child process against the harness HTTPS server (HTTP/1.1 and HTTP/2 alternate) with the same pattern children; its three settings come from every documented source - C2 URL from -c2, SIMPLESHELL_C2 or -ldflags -X main.C2; fingerprint from -fingerprint, SIMPLESHELL_FP, -X main.Fingerprint (with or without sha256//) or none at all (normal TLS validation, the harness certificate as SSL_CERT_FILE); command from the command line (with or without a preceding --), SIMPLESHELL_ARGS (separators space , | : newline tab) or -X main.Args - in a dozen hand-picked combinations (all on the command line, all in the environment, all compiled in, mixed ones with an empty command line) followed by the full product 3x4x3, by case index; flags spelled -f v, -f=v, --f v, --f=v by index; binaries with compiled-in values are built on first use for a server shared by the cases of one protocol, which take turns. The command writes 4 to 7 MiB (every fourth case 0 to 256 KiB) over both descriptors and ends by exit 0, a non-zero exit or a signal to itself (two of three cases unsuccessfully, by index); the server reads on a script that by index lags 0.3, 0.6, 1.2, 1.5, 2.2, 3, 4 or 6 s behind the command's end: lag-stall = keeps up for a while, then until the command has exited (once no more than 1.5 MiB - HTTP/1.1: 4 MiB - are left to read) reads a chunk of 4 or 8 KiB only when the command cannot go on (it sleeps in a write to a pipe - /proc/<pid>/wchan - or sleeps while a pipe to the tool holds 56 KiB or more; also after 500 ms without a read, for liveness, and without looking once 5 s have passed), so that at any speed of either side the command exits with a full pipeline behind it and its last output is still in the pipes to the tool or inside the tool: measured with FIONREAD through /proc/<tool>/fd and, on HTTP/2, as what the server has not read beyond its 1 MiB receive window), reads nothing for the lag, then drains; slow-tail = keeps up until the command has exited and spreads the rest over the lag; the server sends early input (a third of the cases) and ends the response only after the request body has ended. Verdicts: as in engine e2e (keys ...:cli) on what the server read up to the end of the request body, and the body must end cleanly; the wrapped command ran to its last statement (report written, exit seen in /proc), which is exit N with N != 0 or a signal to itself, and the tool reported nothing = nonzero-exit-not-reported:cli / signal-death-not-reported:cli, where reported means ANY of: non-zero exit status of the tool, death of the tool by a signal, anything on its standard error, anything on its standard output (the tool documents neither a status nor a message; its source logs \"Error: ...\" to standard error and exits 0). distinct_nontrivial = distinct (mode, flavor, sizes, write sizes, interleaving, exit status/mode, stdin arrangement, consumer schedule) signatures among cases that move at least one byte"
 	r.Assumptions = []string{
 		"the child's own account (report file written through rename, exit status 97/98 on a failed or interrupted write) is the ground truth of what it wrote",
 		"child exit is observed through /proc/<pid>/stat (zombie or gone)",
@@ -1227,10 +1235,17 @@ func Run(r *mon.Run) {
 		"leave / leave-e2e: that the consumer left while the child was running, that the child wrote again afterwards (its report after every write, compared with the report read just before the Close; cat child: bytes written against the size of its stdin log at that moment) and how it ended (wait status) are measured, not assumed: floors on leave_unsuccessful_exit_after_further_writes_cases and leave_e2e_unsuccessful_exit_after_writes_on_closed_output_cases; the waits for the child's report, for its exit (30 s per case) and for net/http's Close (2 s) decide only what is exercised; a Go that has not returned 30 s after the start although the child has exited and an input left open was closed is inconclusive (and below the floor leave_go_returned_cases), never a violation: the property does not say when Go returns for a consumer that has gone",
 		"leave-e2e: wrapping the CmdShell in another Shell only replaces the reader net/http gets by one that forwards Read and Close and records the Close; the server flushes the response header before it reads, so simpleshell.Go has started the command before the server goes away; an HTTP/1.1 server that returns from or aborts its handler keeps draining the request body for a while, so net/http may not close Output()'s reader in those cases (counted as leave_e2e_output_not_seen_closed_within_2s_cases)",
 		"input: the child's stdin log (syswrite per read, so its size is what the child has seen so far) and its report file (written only once read() returned 0) are the ground truth of what reached its stdin and of when it saw the end; a hand-over waits at most 2 s for the log to reach what was sent (after one expired wait the case stops waiting) and only decides what counts as exercised: a chunk of a socket, *os.File pipe or response body counts as leading a read only when the child had logged everything before it; for bytes.Reader, io.MultiReader and the regular file nothing of the harness stands between the reader and os/exec, so the chunks count once the case has ended; the HTTP kinds end the response only when the request body has ended",
+		"cli: the tool is a child of the harness in a process group of its own with an environment of HOME, PATH, LC_ALL, C14_CHILD (the child program, for the compiled-in command /bin/sh run.sh) and GORACE (race reports go to the harness's race log, never to the tool's standard error) plus the variables of the case; its standard input is /dev/null, its standard output and error are collected by the harness; the wrapped command's descriptors are the tool's pipes, so nothing the command writes can appear on the tool's own descriptors",
+		"cli: the server sends no input after the command has exited and ends the response only once the request body has ended, so an unread rest or a missing report is never the server's doing; a tool that has not exited 30 s after the start although the response has ended is inconclusive; a request body that has not ended by then is re-run alone with 60 s (same rule as e2e); a tool that exits before any request reached the server (a configuration the harness got wrong) is inconclusive",
+		"cli: how far the request body's end was behind the command's exit, what the server had not read and what was still in the pipes between command and tool at that moment are measured per case and floored (cli_cases_..._behind), never part of a verdict; a server receive buffer below 64 KiB is not used (on loopback the sender then waits on persist timers for minutes, whoever the sender is)",
 		"e2e: child exit is observed through /proc before the late input is sent; what the server read is compared only once the request body has reported its end (30 s bound, then the same re-run rule)",
 	}
 	// SEGV and ABRT deaths must not leave core files behind
 	syscall.Setrlimit(syscall.RLIMIT_CORE, &syscall.Rlimit{Cur: 0, Max: 0})
+	// the cli engine is mostly asleep (the servers' lags) or waiting for its
+	// turn at a shared server: it runs beside all the others
+	cliDone := make(chan struct{})
+	go func() { defer close(cliDone); runCLIEngine(r) }()
 	runCaseEngine(r)
 	runE2EEngine(r)
 	// the input engine is short and busy, the ctx engine long and mostly asleep
@@ -1241,6 +1256,7 @@ func Run(r *mon.Run) {
 	<-inputDone
 	runLeaveEngine(r)
 	runLeaveE2EEngine(r)
+	<-cliDone
 	// no process of ours may be left behind
 	if !r.Replaying() {
 		r.Count("orphans_killed", int64(reapOrphans(r.Work)))
